@@ -38,8 +38,25 @@ def candidate_values(ga, atom):
     return []
 
 
+def alone_context(ga, atom):
+    """every other yes/no declaration consulted by the readers of `atom` is
+    answered "no": the user declares this one situation only"""
+    ctx = {}
+    for d in ga.readers.get(atom, []):
+        for r in d.reads():
+            if r.kind == 'i' and r.atom != atom and r.res is not None and r.res.decl is not None and r.res.decl.cls.is_sub_named('BooleanInput'):
+                ctx[r.atom] = False
+    return ctx
+
+
+def classify(ga, atom, val, mode):
+    return ga.classify_all(atom, val, context=alone_context(ga, atom) if mode == 'alone' else None)
+
+
 def infer(ga, skip=()):
-    """all (atom, value) for which some reader refuses by itself (S1)"""
+    """all (atom, value, mode) for which some reader refuses by itself (S1):
+    mode 'plain' - whatever the other answers; mode 'alone' - when it is the only
+    affirmative declaration among those the reader consults"""
     out = []
     for atom in sorted(ga.readers):
         for val in candidate_values(ga, atom):
@@ -47,7 +64,11 @@ def infer(ga, skip=()):
                 continue
             cl = ga.classify_all(atom, val)
             if any(c == 'S1' for c, _ in cl.values()):
-                out.append((atom, val, cl))
+                out.append((atom, val, 'plain', cl))
+            elif val is True and atom.startswith('i:'):
+                cl = classify(ga, atom, val, 'alone')
+                if any(c == 'S1' for c, _ in cl.values()):
+                    out.append((atom, val, 'alone', cl))
     return out
 
 
@@ -127,7 +148,7 @@ def check(tree, rep, tier='quick', seed=0):
                     rep.notes.append(f'stale gate (declaration removed): {key}')
                 continue
             n_g += 1
-            cl = ga.classify_all(atom, val)
+            cl = classify(ga, atom, val, g.get('mode', 'plain'))
             s1 = [k for k, (c, _) in cl.items() if c == 'S1']
             rep.ob('R9.1', key, bool(s1),
                    f'{atom} = {val} used to make {g.get("readers", "a reader")} refuse (not-implemented on every path after reading it); no reader refuses by itself any more - '
@@ -156,8 +177,8 @@ def check(tree, rep, tier='quick', seed=0):
                    f'{y} {g["line"]} no longer refuses when {g["amount"]} exceeds its implemented limit ({g.get("what", "")})', '')
         if tier == 'thorough':
             known = {(g['atom'], g['affirmative']) for g in frozen.get(y, [])}
-            for atom, val, cl in infer(ga, skip=known | not_gates):
-                rep.notes.append(f'{y}: inference proposes a further gate {atom} = {val} (refusing readers {[".".join(k) for k, (c, _) in cl.items() if c == "S1"][:3]}); not in the frozen table')
+            for atom, val, mode, cl in infer(ga, skip=known | not_gates):
+                rep.notes.append(f'{y}: inference proposes a further gate {atom} = {val} [{mode}] (refusing readers {[".".join(k) for k, (c, _) in cl.items() if c == "S1"][:3]}); not in the frozen table')
             for (ln, amt) in sorted(have - {(g['line'], g['amount']) for g in data.get('limit_gates', []) if g['year'] == y}):
                 rep.notes.append(f'{y}: further limit-gate shape {ln} on {amt}; not in the frozen table')
     # ---- R9.4 the signal is real
@@ -191,8 +212,8 @@ def regenerate():
     limits = []
     for y in an.cat.years:
         ga = GateAnalysis(an, y)
-        for atom, val, cl in infer(ga, skip=not_gates):
-            gates.append({'year': y, 'atom': atom, 'affirmative': val, 'readers': sorted('.'.join(k) for k, (c, _) in cl.items() if c == 'S1')})
+        for atom, val, mode, cl in infer(ga, skip=not_gates):
+            gates.append({'year': y, 'atom': atom, 'affirmative': val, 'mode': mode, 'readers': sorted('.'.join(k) for k, (c, _) in cl.items() if c == 'S1')})
         for (k, amt), (d, limit) in sorted(limit_gates(ga).items(), key=lambda t: (t[0][0], t[0][1])):
             limits.append({'year': y, 'line': f'{k[0]}.{k[1]}', 'amount': amt, 'what': f'limit {limit!r}'})
     return {'gates': gates, 'limit_gates': limits, 'not_gates': old.get('not_gates', [])}
